@@ -935,6 +935,28 @@ func (r *pxRun) eval(st *pxState, fr *pxFrame, v ssa.Value) *T {
 				}
 				return v
 			}
+			// a set kept as map[K]bool whose stored values are all true: m[k] is "k is present"
+			if !x.CommaOk {
+				if bt, ok := x.Type().Underlying().(*types.Basic); ok && bt.Kind() == types.Bool {
+					es := st.mapEntries(m)
+					allTrue := true
+					for i := 1; i < len(es); i += 2 {
+						if b, isB := es[i].boolVal(); !isB || !b {
+							allTrue = false
+						}
+					}
+					if len(es) == 0 {
+						return cBool(false)
+					}
+					if allTrue {
+						h := &T{Op: "has", A: []*T{m, k}, Typ: types.Typ[types.Bool], HasEl: true}
+						for i := 0; i+1 < len(es); i += 2 {
+							h.Elems = append(h.Elems, es[i])
+						}
+						return h
+					}
+				}
+			}
 			// a path-local map whose keys are all known (possibly symbolic): presence of k is "k
 			// equals one of them"; absence refutes every one of those equalities
 			if x.CommaOk {
